@@ -9,7 +9,7 @@ import CoapVerif.Generated.BlockConst
 -- DRIVER-OPS: adl => Coap.Driver.Block.adlStep
 -- DRIVER-OPS: slice => Coap.Driver.Block.sliceStep
 -- DRIVER-OPS: rb => Coap.Driver.Block.rbStep
--- DRIVER-OPS: body => Coap.Driver.Block.bodyStep
+-- DRIVER-OPS: bbody => Coap.Driver.Block.bodyStep
 -- DRIVER-OPS: srcv => Coap.Driver.Block.srcvStep
 -- DRIVER-OPS: srcv2 => Coap.Driver.Block.srcv2Step
 namespace Coap.Driver.Block
